@@ -225,6 +225,7 @@ class Shaper(object):
         self._class_min_iris = None
         self._class_shexer = None
         self._shape_list = None
+        self._shape_list_threshold = None
 
     def profile_graph(self, string_output=False, output_file=None, verbose=False):
         self._check_correct_output_params(string_output, output_file, None)
@@ -260,9 +261,11 @@ class Shaper(object):
             self._launch_instance_tracker(verbose=verbose)
         if self._profile is None:
             self._launch_class_profiler(verbose=verbose)
-        if self._shape_list is None:
+        if self._shape_list is None or self._shape_list_threshold != acceptance_threshold:
+            self._class_shexer = None  # the shapes kept by a previous call were built for another threshold
             self._launch_class_shexer(acceptance_threshold=acceptance_threshold,
                                       verbose=verbose)
+            self._shape_list_threshold = acceptance_threshold
         log_msg(verbose=verbose,
                 msg="Building_output...")
 
